@@ -182,9 +182,9 @@ CHECKS = {"perm": chk_perm, "ss": chk_ss, "sslevel": chk_ss_level}
 
 
 def plan(tier, seed):
-    nmax = 7 if tier == "quick" else 8
+    nmax = 7 if tier == "quick" else 9
     specs = [{"name": f"perms-{n}-{i}", "kind": "perms", "n": n, "part": i, "parts": parts}
-             for n in range(nmax + 1) for parts in [1 if n < 6 else (3 if n == 6 else (16 if n == 7 else 64))] for i in range(parts)]
+             for n in range(nmax + 1) for parts in [1 if n < 6 else (3 if n == 6 else (16 if n == 7 else (64 if n == 8 else 320)))] for i in range(parts)]
     specs.append({"name": "ss-levels", "kind": "sslevels", "nmax": nmax})
     specs += [{"name": f"rand-{i}", "kind": "rand", "count": (400 if tier == "quick" else 8000) // 4} for i in range(4)]
     return specs
@@ -200,7 +200,7 @@ def run(ctx, spec):
                 chk_ss(ctx, list(p), True)
         ctx.note(f"exhaustive: S_{spec['n']} part {spec['part']}/{spec['parts']}")
     elif spec["kind"] == "sslevels":
-        for n in range(spec["nmax"] + 2):
+        for n in range(min(spec["nmax"], 8) + 2):
             chk_ss_level(ctx, n)
         ctx.sample({"simion_schmidt_levels": list(range(spec["nmax"] + 2))})
     else:
